@@ -158,9 +158,19 @@ def run(cfg):
         kws = [k.arg for k in n.keywords]
         ob('R2', 'validator.zstdgenerator:TestItem()', zst.loc(n), sorted(kws) == sorted(zfields) and not n.args,
            'TestItem(...) is built with %s, the NamedTuple declares %s' % (sorted(kws), sorted(zfields)))
-    za = zst.fn('TestDataGenerator._add_test_item')
-    attrs = {x.attr for x in ast.walk(za.node) if isinstance(x, ast.Attribute) and isinstance(x.value, ast.Name) and x.value.id in ('item', 'current')}
-    ob('R2', 'validator.zstdgenerator._add_test_item', za.loc, attrs <= set(zfields), 'reads attributes %s that the NamedTuple does not declare' % sorted(attrs - set(zfields)))
+    # every attribute read off a name that holds a TestItem - a parameter or local annotated TestItem, or bound to the result of a
+    # look-up in a map of them next to such a name ('current') - wherever in the module the function stands
+    holders = {'item', 'current'}
+    for n in ast.walk(zst.tree):
+        if isinstance(n, ast.arg) and n.annotation is not None and ast.unparse(n.annotation).strip('\'"') == 'TestItem':
+            holders.add(n.arg)
+        if isinstance(n, ast.AnnAssign) and isinstance(n.target, ast.Name) and ast.unparse(n.annotation).strip('\'"') == 'TestItem':
+            holders.add(n.target.id)
+    reads = [x for x in ast.walk(zst.tree) if isinstance(x, ast.Attribute) and isinstance(x.value, ast.Name) and x.value.id in holders and not x.attr.startswith('_')]
+    if not reads:
+        raise AnalysisError('tools/validator/zstdgenerator.py: no attribute of a TestItem is read any more (anchor moved)')
+    attrs = {x.attr for x in reads}
+    ob('R2', 'validator.zstdgenerator:TestItem.<field>', zst.loc(reads[0]), attrs <= set(zfields), 'reads attributes %s that the NamedTuple does not declare' % sorted(attrs - set(zfields)))
     # ---- R3 / R4 by interpretation on a model of the third-party library (acv/tzmodel.py)
     model_rules(cfg, R, ob, gp, gd, declared)
     return R
@@ -439,6 +449,9 @@ def _masked(fn):
 
 
 SELFTEST = [
+    dict(id='namedtuple-field-misspelled', file='tools/validator/zstdgenerator.py', find='current.total_offset != item.total_offset', replace='current.total_offset != item.utc_offset', rule='R2'),
+    dict(id='dedup-helper-as-instance-method-silent', file='tools/validator/zstdgenerator.py', expect='silent', edits=[
+        dict(file='tools/validator/zstdgenerator.py', find='    @staticmethod\n    def _add_test_item(items_map: Dict[int, TestItem], item: TestItem) -> None:', replace='    def _add_test_item(self, items_map: Dict[int, TestItem], item: TestItem) -> None:')]),
     dict(id='render-dst-before-total', file='tools/validation/arvalgenerator.py',
          find='{total_offset_minutes:4}, {delta_offset_minutes:4}', replace='{delta_offset_minutes:4}, {total_offset_minutes:4}', rule='R1'),
     dict(id='render-offset-in-seconds', file='tools/validation/arvalgenerator.py',
